@@ -343,7 +343,7 @@ class Model(object):
             if self.do_logging:
                 module_logger.warning("model.solve_geom_system not using factorisation")
             W, left_scaling, right_scaling = self.interpolation_matrix()
-            return col_scale(LA.lstsq(W, col_scale(rhs * left_scaling))[0], right_scaling)
+            return col_scale(LA.lstsq(W, col_scale(rhs, left_scaling))[0], right_scaling)
 
     def interpolate_mini_models_svd(self, verbose=False, make_full_rank=False, min_sing_val=1e-6, sing_val_frac=1.0, max_jac_cond=1e8,
                                     get_chg_J=False, throw_error_on_nans=False):
